@@ -3,7 +3,7 @@
    Save/SaveProofs.v. *)
 From Coq Require Import List ZArith Bool.
 From Coq Require Import Permutation.
-From RtoscV Require Import Save.TopoModel Save.SaveModel Save.SaveProofs Save.RoundProofs Save.RoundFull.
+From RtoscV Require Import Save.TopoModel Save.SaveModel Save.SaveProofs Save.RoundProofs Save.RoundFull Save.PermApp Save.SortStage.
 Import ListNotations.
 Local Open Scope Z_scope.
 
@@ -107,6 +107,29 @@ Theorem C12_roundtrip_pipeline_partial :
       forall q, (q < length a)%nat -> p_nodef (port_at a q) = false -> live a st q = true ->
                 restored_val (port_at a q) (val_at st q) (val_at fin q).
 Proof. exact roundtrip_pipeline_full. Qed.
+
+(* The pipeline with the SORT stage instantiated: sort_lines is the model of the
+   real algorithm (scan_deps + Kahn: TopoModel.load_order over the lookup
+   [apropos], e.g. TopoTree.apropos_of_tree root = C18's Ports::apropos + C17's
+   metadata lookup) and its correctness comes from C13_topo / C13_edges_complete,
+   not from a hypothesis.  Remaining stage hypotheses [stage_hypotheses4]: C09
+   (walk), C16 (value equality), C10 (print/scan), C04+C14 (dispatch, callback).
+   In exchange the theorem asks what C13_topo asks: the metadata declares the
+   application's dependencies, the scan of the saved file ends, its edges are
+   acyclic. *)
+Theorem C12_roundtrip_pipeline_sorted_partial :
+  forall text walk av_eq print_lines scan_text dispatch apropos fuel a st ps,
+    stage_hypotheses4 text walk av_eq print_lines scan_text dispatch a st ->
+    full_conditions a st ->
+    declared a apropos ->
+    pushes line apropos fuel (msgs (save_lines a st)) = Some ps -> ranked ps ->
+    exists fin,
+      real_load text scan_text dispatch (fun _ ls => sort_by_load_order apropos fuel ls) a
+                (real_save text walk av_eq print_lines a st) (initial a)
+      = Some (Z.of_nat (length (save_lines a st)), fin) /\
+      forall q, (q < length a)%nat -> p_nodef (port_at a q) = false -> live a st q = true ->
+                restored_val (port_at a q) (val_at st q) (val_at fin q).
+Proof. exact roundtrip_pipeline_sorted. Qed.
 
 (* non-vacuity: a switch with a pointer sub-tree and a three-element array whose
    line is trimmed to two; switch first restores the state, the line below the
